@@ -30,7 +30,7 @@ PROP = dict(
         "every client drains its channels after every notifier call (no slow consumers); goroutine-level concurrency of the notifier (it is fully serialised by its mutex) is not explored",
         "no address reuse: at most one transaction on the active chain pays a watched script / spends a watched script (documented as ignored by the notifier)",
         "reorgs while a request is not registered in the running notifier (node offline, or before re-registration after a restart) may invalidate hints persisted earlier (documented limitation, CacheConfig.QueryDisable); such requests leave the hint/completeness domain",
-        "three candidate findings are excluded by construction while listed as known (see notes/C14.md)",
+        "findings are excluded by construction only while known_findings.json lists them as known (currently C14:pending-rescan-hint-not-lowered-on-disconnect; the two repaired ones are generated again, see notes/C14.md)",
     ],
     jobs=dict(
         quick=[
